@@ -27,12 +27,13 @@ func init() {
 
 // reloadAnchors locates the reload machinery by role, not by name.
 type reloadAnchors struct {
-	owner   *ssa.Function   // goroutine literal that allocates the listenerSet
-	runCfg  *ssa.Function   // its root function (runConfig)
-	startFn *ssa.Function   // closure that builds services/listeners and returns error
-	startC  *ssa.Call       // the call of startFn inside owner
-	callers []*ssa.Function // functions calling runCfg (loadConfig)
-	lsType  string
+	owner       *ssa.Function   // goroutine literal that allocates the listenerSet
+	runCfg      *ssa.Function   // its root function (runConfig)
+	startFn     *ssa.Function   // closure that builds services/listeners and returns error
+	startC      *ssa.Call       // the call of startFn inside owner
+	callers     []*ssa.Function // functions calling runCfg (loadConfig)
+	lsType      string
+	startRegion map[*ssa.Function]bool // functions of the start code (set by C09.BIND)
 }
 
 func findReload(c *Ctx, rule string) *reloadAnchors {
@@ -43,6 +44,20 @@ func findReload(c *Ctx, rule string) *reloadAnchors {
 		return nil
 	}
 	a.owner = allocs[0].Fn
+	// a constructor that returns the set it allocates is not the owner: climb to its (single) caller
+	for i := 0; i < 3 && returnsType(a.owner, a.lsType); i++ {
+		var ups []*ssa.Function
+		for _, s := range c.P.CallSitesOf(a.owner) {
+			if !c.P.IsTestSupport(s.Fn) && (len(ups) == 0 || ups[len(ups)-1] != s.Fn) {
+				ups = append(ups, s.Fn)
+			}
+		}
+		if len(ups) != 1 {
+			c.Undecided(rule, "anchor:listenerSet-owner", c.P.Pos(a.owner.Pos()), fmt.Sprintf("the constructor of %s has %d callers (expected one owner)", a.lsType, len(ups)))
+			return nil
+		}
+		a.owner = ups[0]
+	}
 	a.runCfg = eng.Root(a.owner)
 	// the start closure: a call in owner to a closure with an error result that reaches listenerSet.Listen*
 	listenQ := isCall("(*"+a.lsType+").ListenStream", "(*"+a.lsType+").ListenPacket")
@@ -113,6 +128,62 @@ func findReload(c *Ctx, rule string) *reloadAnchors {
 	}
 	a.callers = roots
 	return a
+}
+
+// returnsType: some result of f has the named (pointer-to) type.
+func returnsType(f *ssa.Function, tn string) bool {
+	rs := f.Signature.Results()
+	for i := 0; i < rs.Len(); i++ {
+		if eng.TypeName(rs.At(i).Type()) == tn {
+			return true
+		}
+	}
+	return false
+}
+
+// neverFails: every return of f carries, in its error slot, a nil constant or the error of a call all of whose resolved
+// callees never fail (decided from the SSA on every run).
+func neverFails(c *Ctx, f *ssa.Function, memo map[*ssa.Function]int) bool {
+	if v, ok := memo[f]; ok {
+		return v == 1
+	}
+	memo[f] = 0 // recursion: pessimistic
+	ei := errorResultIndex(f.Signature)
+	if ei < 0 || len(f.Blocks) == 0 {
+		return false
+	}
+	for _, r := range eng.Returns(f) {
+		if len(r.Results) <= ei {
+			return false
+		}
+		v := r.Results[ei]
+		if eng.IsZeroValue(v) {
+			continue
+		}
+		var call *ssa.Call
+		if ex, ok := v.(*ssa.Extract); ok {
+			call, _ = ex.Tuple.(*ssa.Call)
+			if call != nil && errorResultIndex(call.Call.Signature()) != ex.Index {
+				call = nil
+			}
+		} else if cc, ok := v.(*ssa.Call); ok {
+			call = cc
+		}
+		if call == nil {
+			return false
+		}
+		callees := c.P.Callees(call)
+		if len(callees) == 0 {
+			return false
+		}
+		for _, g := range callees {
+			if !neverFails(c, g, memo) {
+				return false
+			}
+		}
+	}
+	memo[f] = 1
+	return true
 }
 
 func (a *reloadAnchors) region(c *Ctx, root *ssa.Function) *Region {
@@ -312,6 +383,7 @@ func rulePropagate(c *Ctx, a *reloadAnchors) {
 	}
 	add(a.startFn)
 	n := 0
+	nfMemo := map[*ssa.Function]int{}
 	for _, f := range eng.SortedFns(scope) {
 		ei := errorResultIndex(f.Signature)
 		if ei < 0 {
@@ -332,18 +404,12 @@ func rulePropagate(c *Ctx, a *reloadAnchors) {
 			callees := c.P.Callees(call)
 			alwaysNil := len(callees) > 0
 			for _, g := range callees {
-				if len(g.Blocks) == 0 {
+				if !neverFails(c, g, nfMemo) {
 					alwaysNil = false
-					break
-				}
-				for _, r := range eng.Returns(g) {
-					if !eng.IsZeroValue(r.Results[len(r.Results)-1]) {
-						alwaysNil = false
-					}
 				}
 			}
 			if alwaysNil {
-				c.Exempt("PROPAGATE", eng.CalleeName(&call.Call), "every return of the callee carries a nil error constant (re-verified from its SSA on this run)")
+				c.Exempt("PROPAGATE", eng.CalleeName(&call.Call), "every return of the callee carries a nil error constant, or the error of a callee of which the same holds (re-verified from its SSA on this run)")
 				c.CheckAt("PROPAGATE", key, call, true, "callee cannot fail: all its returns carry a nil error||")
 				n++
 				continue
